@@ -291,9 +291,43 @@ func (c *Change) Instance(g *G) (string, *Fill) {
 		// code in the file may use names that are spelled like the metavariables of the patch: it is still ordinary code
 		c.hotFill(g, f)
 	}
+	if g.R.Intn(5) == 0 {
+		// code a metavariable stands for may be spread over several lines: a call with one argument per line, the
+		// last one possibly a spread 'xs...' (a token go/ast keeps only as a position)
+		for _, v := range c.Meta {
+			if fv := f.Meta[v.Name]; v.Kind == "expression" && v.Name[0] != 'T' && strings.HasSuffix(fv, ")") {
+				if ml := MultiLineCall(fv, g.R.Intn(3) == 0); ml != "" && PlantParses("expr", ml) {
+					f.Meta[v.Name] = ml
+				}
+			}
+		}
+	}
 	f.Relayout = g.R.Intn(3) == 0
 	f.NoComment = g.NoRelayoutComment
 	return c.Substitute(minus, f), f
+}
+
+// MultiLineCall re-lays 'f(a, b)' as a call with one argument per line; with spread, a call whose last argument is an
+// identifier gets it spread ('b...').
+func MultiLineCall(v string, spread bool) string {
+	for i := 0; i < len(v); i++ {
+		if v[i] != '(' || closeOf(v, i) != len(v)-1 || i == 0 {
+			continue
+		}
+		args := splitTop(v[i+1 : len(v)-1])
+		if len(args) == 0 || strings.TrimSpace(args[0]) == "" {
+			return ""
+		}
+		for k := range args {
+			args[k] = strings.TrimSpace(args[k])
+		}
+		last := args[len(args)-1]
+		if spread && !strings.HasSuffix(last, "...") && token.IsIdentifier(last) {
+			args[len(args)-1] = last + "..."
+		}
+		return v[:i+1] + "\n\t" + strings.Join(args, ",\n\t") + ",\n)"
+	}
+	return ""
 }
 
 // hotFill renames one identifier inside the code an expression metavariable stands for to the name of a
